@@ -5,6 +5,7 @@ import json
 import random
 
 from .. import core, genpf, sx
+from . import modside as ms
 
 THEOREMS = ['C08.stateful_run_pushes_advertised_conclusion', 'C08.basic_run_returns_advertised_conclusion',
             'C08.stateful_success_implies_basic_success', 'C08.basic_success_implies_stateful_success',
@@ -68,7 +69,26 @@ def run(rep):
         'outcomes': {k: sum(1 for a in pa if a.startswith(k)) for k in ('(all-agree', '(all-raise', '(construct-raises', '(disagree')},
         'samples': [reqs[0][:700], pa[0][:300], conc_reqs[0][:300], pc[0][:200]],
     })
-    for b in bad[:8]:
+    # ---- the slot budget: modules with MANY axioms, each also a claim proved by load_axiom.  `serialize(optimize=True)` runs the counting
+    # pass and then MemoizingInterpreter(SerializingInterpreter, finalize()): every axiom takes two slots there (the saved pattern and the
+    # published Proved), so the analysis must budget 256 - n suggestions.  Outcome with and without optimisation must be the same
+    # (n = 129 fills the memory exactly: slots 0..255).
+    big = []
+    for n_ax in ((100, 129) if quick else (60, 100, 127, 128, 129, 130, 160)):
+        ax = [('app', ('sym', 4000 + i // 200), ('app', ('evar', i % 200), ('evar', (i * 7 + 1) % 200))) for i in range(n_ax)]
+        big.append(('module', ax, list(ax), [('axiom', a) for a in ax], []))
+    bent, _bdis = ms.serialise(big)
+    budget = []
+    for e, m in zip(bent, big):
+        a, b = e.get('raw', ''), e.get('opt', '')
+        if a and b and a.startswith('(ok') != b.startswith('(ok'):
+            budget.append({'request': e['s'][:1500], 'axioms': len(m[1]), 'raw': a[:160], 'opt': b[:160], 'memo_size': e.get('memo', '').count('(') - 1,
+                           'python': 'memoising(serialising) %s, plain serialising %s on a module of %d axioms' % (b[:40], a[:40], len(m[1]))})
+    rep.coverage.update({'slot_budget_modules': len(big), 'slot_budget_outcomes': [(len(m[1]), e.get('raw', '')[:3], e.get('opt', '')[:6]) for e, m in zip(bent, big)]})
+    for b in budget[:3]:
+        rep.violation('interpreters disagree on a proof module: ' + b['python'][:160], b, True, key='py-interp-budget:%d' % b['axioms'])
+    bad = bad + budget
+    for b in [b for b in bad if 'axioms' not in b][:8]:
         rep.violation('interpreters disagree on a proof expression: ' + b['python'][:120], b, True,
                       key='py-interp:' + b['request'][:200])
     if not bad:
